@@ -29,6 +29,11 @@ import (
 
 var weiPerETH = decimal.New(1e18, 0)
 
+// weiPerETHDecimals is the number of decimal places between Wei and Ether.
+// Converting Wei to Ether by shifting the decimal point is exact, whereas
+// Div() rounds to decimal.DivisionPrecision (16) places.
+const weiPerETHDecimals = 18
+
 // BaseRelayConfig are the options for base relays.
 type BaseRelayConfig struct {
 	PublicKey    *phase0.BLSPubKey
@@ -66,7 +71,7 @@ func (c *BaseRelayConfig) MarshalJSON() ([]byte, error) {
 	}
 	var minValue string
 	if c.MinValue != nil {
-		minValue = fmt.Sprintf("%v", c.MinValue.Div(weiPerETH))
+		minValue = fmt.Sprintf("%v", c.MinValue.Shift(-weiPerETHDecimals))
 	}
 	return json.Marshal(&baseRelayConfigJSON{
 		PublicKey:    publicKey,
